@@ -11,11 +11,13 @@ from . import values as V, walk
 DEF_NAMES = ["a", "b", "", "a/b", "m~n", "~1", "~01", "%", "%25", "x y", "é", "0", "01", "#", "?", '"', "\\",
              "\U0001F600", "items", "$ref", "a~0b", "c%d"]
 EXT_URIS = ["http://ex.test/b.json", "http://ex.test/sub/c.json", "http://ex.test/dir/d.json",
-            "http://other.test/e.json", "http://ex.test/B.json"]          # B.json / b.json: paths are case-sensitive
+            "http://other.test/e.json", "http://ex.test/B.json",          # B.json / b.json: paths are case-sensitive
+            "http://ex.test/sub%2Fc.json"]      # not sub/c.json: a reserved character and its escape differ (RFC 3986 2.2)
 ROOT_BASES = ["", "", "http://ex.test/root.json", "http://ex.test/dir/root.json", "http://ex.test/root.json#",
               "http://ex.test/sub/deep/r.json"]
 EXOTIC_BASES = ["urn:example:root", "tag:ex.test,2020:root", "x-sch://ex/root.json"]
-OPTIONAL = list("~!$&'()*+,;=:@?-._") + list("abm01")
+TWINS = ["http://ex.test/sub/c.json", "http://ex.test/sub%2Fc.json"]
+OPTIONAL = list("~!$&'()*+,;=:@?-._") + list("abm01") + ["/", "/", "/"]
 
 LEAVES = [{"type": "string"}, {"type": "integer"}, {"type": "object"}, {"type": "array"}, {"type": "boolean"},
           {"type": "null"}, {"enum": [1, "a"]}, {"enum": [None]}, {"minimum": 2}, {"maximum": 0}, {"maxLength": 1},
@@ -114,6 +116,13 @@ def worlds(draw, ninst=3, hostile_names=True, split_paths=False, foreign_ids=Fal
     names = DEF_NAMES if hostile_names else ["a", "b", "c"]
     # ---- external documents -------------------------------------------------------------------
     ext = draw(st.lists(st.sampled_from(EXT_URIS), max_size=3, unique=True))
+    twin = None
+    if TWINS[0] in ext and TWINS[1] not in ext and draw(st.booleans()):
+        ext = ext[:2] if TWINS[0] in ext[:2] else [TWINS[0], ext[0]]
+        ext.append(TWINS[1])
+    if TWINS[0] in ext and TWINS[1] in ext:
+        classes.append("escaped-twin-documents")
+        twin = draw(st.sampled_from(["handler", "handler", "store", None]))
     docs, via = {}, {}
     targets = []            # (uri, tokens, is_recursive_ok)
     # one definition name present in the root AND in the external documents, referred to by the very same
@@ -128,6 +137,8 @@ def worlds(draw, ninst=3, hostile_names=True, split_paths=False, foreign_ids=Fal
             dd[idkw] = u
         docs[u] = dd
         via[u] = draw(st.sampled_from(["store", "store", "store#", "handler", "handler", "missing"]))
+        if twin and u in TWINS:
+            via[u] = twin
         if via[u] == "store#":
             classes.append("store-key-trailing-#")
         targets.append((u, ()))
